@@ -124,6 +124,9 @@ FailurePropagatesDone(tr, S, wst, sRan, wStarted) ==
     \A d \in S : FailedToStart(d, wst, sRan) =>
         \A x \in DependantsSvc(tr, S, d) : wStarted[x] => wst[x] = "Failed"
 
+(* a wrapper never reports a clean stop for a service that failed *)
+FailureReported(S, wst, sst) == \A m \in S : wst[m] = "Terminated" => sst[m] # "Failed"
+
 AllStopped(S, wst, sst) ==
     \A m \in S : wst[m] \in Terminal /\ sst[m] \in {"New", "Terminated", "Failed"}
 =============================================================================
